@@ -66,6 +66,12 @@ def detect(sd, props=None):
         print('patch does not apply to /repo', o)
         return
     res = {}
+    # the evidence files must keep describing the unchanged tree: save them and put them back afterwards
+    saved = {}
+    for p in props:
+        ev = os.path.join(VERIF, 'evidence', f'{p}.json')
+        if os.path.exists(ev):
+            saved[ev] = open(ev).read()
     try:
         for p in props:
             rc, o = sh(f'./check {p} --tier quick', cwd=VERIF, timeout=3000)
@@ -74,6 +80,8 @@ def detect(sd, props=None):
             print(os.path.basename(sd), p, 'exit', rc, lines[:2])
     finally:
         sh('git checkout -- .', cwd='/repo')
+        for ev, content in saved.items():
+            open(ev, 'w').write(content)
     meta.setdefault('detection', {}).update(res)
     json.dump(meta, open(os.path.join(sd, 'meta.json'), 'w'), indent=1)
 
